@@ -263,9 +263,14 @@ class CompartmentedModel(Process):
         for n in g.nodes():
             g.nodes[n][self.COMPARTMENT] = None
 
+            # forget any hitting time left by an earlier use of this network
+            g.nodes[n].pop(self.T_HITTING, None)
+            g.nodes[n].pop(self.HITTING_PROCESS_NAME, None)
+
         # mark edges as unoccupied
         for (_, _, data) in g.edges(data=True):
             data[self.OCCUPIED] = False
+            data.pop(self.T_OCCUPIED, None)
 
         # place nodes in initial compartments
         self.initialCompartments()
